@@ -116,6 +116,7 @@ type Cluster struct {
 	Keyspaces   map[string]bool
 
 	scripts  map[string][]Outcome
+	forced   map[string]bool
 	seen     map[string]int
 	attempts []*Attempt
 	heldq    []*held
@@ -286,6 +287,24 @@ func (c *Cluster) Script(token string, outcomes []Outcome) {
 	c.mu.Lock()
 	c.scripts[token] = outcomes
 	c.mu.Unlock()
+}
+
+// ScriptForced is Script for requests whose prepared ids the hosts do not know: the script is consulted instead of the
+// automatic UNPREPARED answer.
+func (c *Cluster) ScriptForced(token string, outcomes []Outcome) {
+	c.mu.Lock()
+	c.scripts[token] = outcomes
+	if c.forced == nil {
+		c.forced = map[string]bool{}
+	}
+	c.forced[token] = true
+	c.mu.Unlock()
+}
+
+func (c *Cluster) isForced(token string) bool {
+	c.mu.Lock()
+	defer c.mu.Unlock()
+	return token != "" && c.forced[token]
 }
 
 func (c *Cluster) Attempts(token string) []*Attempt {
@@ -1158,14 +1177,14 @@ func (c *Conn) handle(f *wire.Frame) bool {
 			return r
 		}, v)
 	case *message.Execute:
-		if cl.UnpreparedAuto && !c.h.HasPrepared(hex.EncodeToString(m.QueryId)) {
+		if cl.UnpreparedAuto && !cl.isForced(token) && !c.h.HasPrepared(hex.EncodeToString(m.QueryId)) {
 			c.record(f, plain, token, "unprepared(auto)")
 			c.replyMsg(v, f.Stream, &message.Unprepared{ErrorMessage: "Prepared query with ID " + hex.EncodeToString(m.QueryId) + " not found " + token, Id: m.QueryId}, c.extrasFor(f, v))
 			return true
 		}
 		return c.scriptedWithID(f, plain, token, nil, v, m.QueryId)
 	case *message.Batch:
-		if cl.UnpreparedAuto {
+		if cl.UnpreparedAuto && !cl.isForced(token) {
 			for _, ch := range m.Children {
 				if ch.Id != nil && !c.h.HasPrepared(hex.EncodeToString(ch.Id)) {
 					c.record(f, plain, token, "unprepared(auto)")
